@@ -240,7 +240,7 @@ def main(argv=None):
                   "hidden list entries carry id 0 (as the Go bindings produce them)"]
     chk.trusted = ["group layer specification (C05-C08, C01)", "C11: nondelegable_qualifykey(parent, from) is the well-formed key for the accumulated pattern", "z3"]
     # lower layers whose specifications this check relies on: their obligations are part of this check's claim (framework.Check.include)
-    for dep in ['C06', 'C02', 'C04', 'C05', 'C07', 'C01', 'C08', 'C10', 'C19']:
+    for dep in ['C06', 'C02', 'C03', 'C04', 'C05', 'C07', 'C01', 'C08', 'C10', 'C19']:
         chk.include(dep)
     chk.run()
     chk.finish()
